@@ -180,7 +180,10 @@ func randDescGraph(r *rand.Rand, keys bool) DescJ {
 
 var dblSpecials = []uint64{0, 0x8000000000000000, 1, 0x000fffffffffffff, 0x0010000000000000, 0x7fefffffffffffff, 0x3ff0000000000000,
 	0x4340000000000000, 0x4340000000000001, 0x433fffffffffffff, 0x7ff0000000000000, 0xfff0000000000000, 0x7ff8000000000001, 0x7ff0000000000001,
-	0x3fb999999999999a, 0x4024000000000000, 0x44b52d02c7e14af6, 0x3e7ad7f29abcaf48}
+	0x3fb999999999999a, 0x4024000000000000, 0x44b52d02c7e14af6, 0x3e7ad7f29abcaf48,
+	// integral doubles at the integer-width boundaries: 2^31, 2^32, 2^53 negated, the two neighbours of 2^63, +-2^63, 2^64, 1e15, 1e19
+	0x41e0000000000000, 0x41f0000000000000, 0xc340000000000000, 0x43dfffffffffffff, 0x43e0000000000000, 0x43e0000000000001, 0xc3e0000000000000, 0xc3e0000000000001,
+	0x43f0000000000000, 0x430c6bf526340000, 0x43e158e460913d00}
 
 // richer scalars for conversions: float classes, escape-relevant strings, SIMD-lane lengths
 func convScalar(r *rand.Rand, t byte, finiteOnly bool) *Val {
